@@ -119,4 +119,48 @@ Pow10(n) == IF n >= 4 THEN [neg |-> FALSE, mag |-> <<0>> \o Pow10(n - 4).mag]
 ToInt(x) == LET v == Limb(x.mag, 1) + Base * Limb(x.mag, 2) + Base * Base * Limb(x.mag, 3)
             IN IF x.neg THEN -v ELSE v
 FitsInt(x) == Len(x.mag) <= 2 \/ (Len(x.mag) = 3 /\ x.mag[3] <= 20)
+
+\* ---- general division (schoolbook long division by a BigNat divisor) ----
+\* largest q in lo..hi with q*b <= cur   (requires lo*b <= cur < (hi+1)*b)
+RECURSIVE FindQMag(_, _, _, _)
+FindQMag(cur, b, lo, hi) ==
+    IF lo >= hi THEN lo
+    ELSE LET mid == (lo + hi + 1) \div 2
+         IN IF CmpMag(MulSmallMag(b, mid), cur) <= 0 THEN FindQMag(cur, b, mid, hi)
+                                                      ELSE FindQMag(cur, b, lo, mid - 1)
+
+\* processes limbs i..1 of a (most significant first) with running remainder
+\* rem < b; returns <<quotient limbs (little endian, unstripped), remainder>>
+RECURSIVE DivModMagFrom(_, _, _, _)
+DivModMagFrom(a, b, i, rem) ==
+    IF i = 0 THEN <<<<>>, rem>>
+    ELSE LET cur  == StripM(<<a[i]>> \o rem)                 \* rem * Base + a[i]
+             n    == Len(b)
+             top  == Limb(cur, n + 1) * Base + Limb(cur, n)     \* leading limbs of cur (< 10^8)
+             qhi0 == top \div b[n]                            \* q <= top / b_top
+             qhi  == IF qhi0 > Base - 1 THEN Base - 1 ELSE qhi0
+             qlo  == top \div (b[n] + 1)                       \* q >= top / (b_top + 1)
+             q    == IF CmpMag(cur, b) < 0 THEN 0 ELSE FindQMag(cur, b, qlo, qhi)
+             r2   == SubMag(cur, MulSmallMag(b, q))
+             rest == DivModMagFrom(a, b, i - 1, r2)
+         IN <<rest[1] \o <<q>>, rest[2]>>
+\* <<quotient, remainder>> of magnitudes, b # <<>>
+DivModMag(a, b) == LET r == DivModMagFrom(a, b, Len(a), <<>>) IN <<StripM(r[1]), r[2]>>
+
+\* truncating division (quotient rounds toward zero, remainder has the sign of x), y # 0
+QuotTrunc(x, y) == Norm([neg |-> (x.neg # y.neg), mag |-> DivModMag(x.mag, y.mag)[1]])
+RemTrunc(x, y)  == Norm([neg |-> x.neg, mag |-> DivModMag(x.mag, y.mag)[2]])
+\* floor division (quotient rounds toward minus infinity), y # 0
+FloorDiv(x, y) == LET qr == DivModMag(x.mag, y.mag)
+                      q  == Norm([neg |-> (x.neg # y.neg), mag |-> qr[1]])
+                  IN IF (x.neg # y.neg) /\ qr[2] # <<>> THEN Sub(q, FromInt(1)) ELSE q
+
+\* from big-endian decimal digits (each in 0..9)
+RECURSIVE FromDecDigits(_)
+FromDecDigits(ds) == IF ds = <<>> THEN Zero
+                     ELSE Add(MulSmall(FromDecDigits(SubSeq(ds, 1, Len(ds) - 1)), 10), FromInt(ds[Len(ds)]))
+\* big-endian decimal digits of |x| (<<0>> for zero)
+RECURSIVE DecDigitsMag(_)
+DecDigitsMag(m) == IF m = <<>> THEN <<>> ELSE LET qr == DivSmallMag(m, 10) IN Append(DecDigitsMag(qr[1]), qr[2])
+DecDigits(x) == IF x.mag = <<>> THEN <<0>> ELSE DecDigitsMag(x.mag)
 =============================================================================
